@@ -1,10 +1,10 @@
 SPECIFICATION Spec
 CONSTANTS
-  Abis = {"x64-elf"}
+  Abis = {"x64-elf", "arm64-elf"}
   MaxUses = 2
   Cat = "core"
-  MapNames = {"AB", "AB_BC"}
-  WithPatch = FALSE
+  MapNames = {"AB", "AB_BC", "AB_BA", "AB_XB"}
+  WithPatch = TRUE
   Emit = TRUE
 INVARIANT Inv
 CHECK_DEADLOCK FALSE
